@@ -21,6 +21,11 @@ class CachedDataset(Dataset):
     def __getattr__(self, item):
         if item == "dataset":
             return getattr(super(), item)
+        if item == "__getitems__":
+            # torch dataloaders use dataset.__getitems__ for batched loading if it is available
+            # -> don't forward it to the wrapped dataset (e.g. torch.utils.data.Subset implements it) as this would
+            # circumvent the cache and the transform (same as in ModeWrapper)
+            return None
         return getattr(self.dataset, item)
 
     def _cached_getitem(self, index):
